@@ -79,6 +79,10 @@ func (f *Frame) callCommon(instr ssa.Instruction, c *ssa.CallCommon, st *State, 
 	if ci := f.closures[c.Value]; ci != nil {
 		return f.callStatic(instr, ci.fn, ci.bindings, st, args, pos)
 	}
+	// a closure variable of the enclosing function, captured by reference (e.g. `split := func...`)
+	if callee, bindings, ok := f.resolveCapturedClosure(c.Value); ok {
+		return f.callStatic(instr, callee, bindings, st, args, pos)
+	}
 	// closure passed as parameter from an inlining caller
 	if p, ok := c.Value.(*ssa.Parameter); ok && f.parent != nil {
 		if ci := f.paramClosures[p]; ci != nil {
@@ -118,7 +122,10 @@ func (f *Frame) callStatic(instr ssa.Instruction, callee *ssa.Function, bindings
 		return f.inline(callee, bindings, st, args)
 	}
 	if ct != nil && !ct.Inline && !(isClosure && !hasCallerVisibleContract(ct)) {
-		return f.modularCall(instr, callee, ct, st, args, pos)
+		f.curBindings = bindings
+		r := f.modularCall(instr, callee, ct, st, args, pos)
+		f.curBindings = nil
+		return r
 	}
 	if (isClosure || isWrapper || (ct != nil && ct.Inline)) && len(callee.Blocks) > 0 && f.depth < maxInlineDepth {
 		return f.inline(callee, bindings, st, args)
@@ -214,6 +221,16 @@ func (f *Frame) calleeEval(callee *ssa.Function, st, old *State, args []Val, res
 		ev.pos = callee.Syntax().End() - 1
 	}
 	bindNames(ev.vars, callee, args, results)
+	// free variables of a contracted closure, by name (dereferenced in the evaluation state)
+	for i, fv := range callee.FreeVars {
+		if _, ok := ev.vars[fv.Name()]; ok || i >= len(f.curBindings) {
+			continue
+		}
+		pv := f.curBindings[i]
+		if len(pv.Comps) == 1 {
+			ev.vars[fv.Name()] = f.g.loadVal(st, pv.Comps[0], fv.Type().(*types.Pointer).Elem())
+		}
+	}
 	return ev
 }
 
@@ -304,8 +321,9 @@ func (f *Frame) modularCall(instr ssa.Instruction, callee *ssa.Function, ct *Con
 		g.declare(w, SInt)
 		g.assume(boolLit(true), tCmp(">=", raw(w, SInt), st.W))
 		st.W = Term{S: w, Sort: SInt}
-		if len(mods) > 0 {
-			g.bumpTok(st)
+		for _, m := range mods {
+			lo := m.Lo
+			g.bumpTokAt(st, &lo, true)
 		}
 	}
 	var out []Val
@@ -923,7 +941,7 @@ func (g *Gen) copyCells(st *State, elem types.Type, dst, src, n Term) {
 			st.heap[k] = Term{S: nn, Sort: arrSort(c.Sort)}
 		}
 	}
-	g.bumpTok(st)
+	g.bumpTokAt(st, &dst, hasPtrComps(elem))
 }
 
 func (f *Frame) appendBuiltin(instr ssa.Instruction, c *ssa.CallCommon, st *State, args []Val) Val {
@@ -996,7 +1014,7 @@ func (f *Frame) appendBuiltin(instr ssa.Instruction, c *ssa.CallCommon, st *Stat
 			_ = single
 		}
 	}
-	g.bumpTok(st)
+	g.bumpTokAt(st, &rptr, hasPtrComps(elem))
 	return Val{Typ: c.Args[0].Type(), Comps: []Term{rptr, newLen, rcap}}
 }
 
@@ -1039,12 +1057,25 @@ func (f *Frame) scanCallMods(ci ssa.CallInstruction, lm *loopMods, depth int) {
 		case "append":
 			lm.alloc = true
 			lm.tok = true
+			if !staticallyFresh(c.Args[0], map[ssa.Value]bool{}) {
+				lm.nonFresh = true
+				if hasPtrComps(under(c.Args[0].Type()).(*types.Slice).Elem()) {
+					lm.escape = true
+				}
+			}
 			lm.addType(under(c.Args[0].Type()).(*types.Slice).Elem(), false)
 		case "copy":
 			lm.tok = true
+			if !staticallyFresh(c.Args[0], map[ssa.Value]bool{}) {
+				lm.nonFresh = true
+				if hasPtrComps(under(c.Args[0].Type()).(*types.Slice).Elem()) {
+					lm.escape = true
+				}
+			}
 			lm.addType(under(c.Args[0].Type()).(*types.Slice).Elem(), false)
 		case "delete":
 			lm.tok = true
+			lm.nonFresh = true
 			lm.addMap(c.Args[0].Type())
 		case "clear":
 			lm.all = true
@@ -1098,6 +1129,7 @@ func (f *Frame) scanCalleeMods(callee *ssa.Function, lm *loopMods, depth int) bo
 		}
 		if len(ct.Modifies) > 0 {
 			lm.tok = true
+			lm.nonFresh, lm.escape = true, true
 		}
 		return true
 	}
@@ -1227,4 +1259,83 @@ func pureKey(fn *ssa.Function, fallback string) string {
 		return o.FullName()
 	}
 	return fallback
+}
+
+// resolveCapturedClosure: `*fv` where fv is a free variable bound (in the parent's MakeClosure of this
+// function) to a cell that is assigned exactly once, with a MakeClosure value.
+func (f *Frame) resolveCapturedClosure(v ssa.Value) (*ssa.Function, []Val, bool) {
+	ld, ok := v.(*ssa.UnOp)
+	if !ok || ld.Op != token.MUL {
+		return nil, nil, false
+	}
+	var cell *ssa.Alloc
+	var myMC *ssa.MakeClosure
+	switch x := ld.X.(type) {
+	case *ssa.Alloc:
+		cell = x
+	case *ssa.FreeVar:
+		parent := f.fn.Parent()
+		if parent == nil {
+			return nil, nil, false
+		}
+		k := -1
+		for i, fv := range f.fn.FreeVars {
+			if fv == x {
+				k = i
+			}
+		}
+		for _, b := range parent.Blocks {
+			for _, in := range b.Instrs {
+				if mc, ok := in.(*ssa.MakeClosure); ok && mc.Fn == ssa.Value(f.fn) {
+					myMC = mc
+				}
+			}
+		}
+		if myMC == nil || k < 0 || k >= len(myMC.Bindings) {
+			return nil, nil, false
+		}
+		cell, _ = myMC.Bindings[k].(*ssa.Alloc)
+	}
+	if cell == nil {
+		return nil, nil, false
+	}
+	var target *ssa.MakeClosure
+	var plain *ssa.Function
+	nstores := 0
+	for _, r := range *cell.Referrers() {
+		if s, ok := r.(*ssa.Store); ok && s.Addr == ssa.Value(cell) {
+			nstores++
+			target, _ = s.Val.(*ssa.MakeClosure)
+			plain, _ = s.Val.(*ssa.Function)
+		}
+	}
+	if nstores == 1 && plain != nil {
+		return plain, nil, true // function literal without captured variables
+	}
+	if nstores != 1 || target == nil {
+		return nil, nil, false
+	}
+	callee := target.Fn.(*ssa.Function)
+	// bindings of the target closure as seen from here
+	var bindings []Val
+	for _, b := range target.Bindings {
+		var bv Val
+		found := false
+		if cur, ok := f.vals[b]; ok { // same frame (the cell lives in this function)
+			bv, found = cur, true
+		}
+		if !found && myMC != nil {
+			for j, mb := range myMC.Bindings {
+				if mb == b && j < len(f.fn.FreeVars) {
+					bv, found = f.val(f.fn.FreeVars[j], f.fn.FreeVars[j].Type()), true
+				}
+			}
+		}
+		if !found {
+			bv = f.g.freshVal("capt_"+b.Name(), b.Type())
+			f.g.assume(boolLit(true), tCmp(">=", bv.Comps[0], intLit(1)))
+		}
+		bindings = append(bindings, bv)
+	}
+	return callee, bindings, true
 }
